@@ -1,4 +1,4 @@
-"""C01 is decided by engine/c01check.py (translation validation of generated -c wrappers by solver), not by the
+"""C01 is decided by engine/c01check.py (translation validation of generated -c / -python wrappers by solver), not by the
 generic harness catalogue.  C11's signature-agreement clause is the same run (the wrapper is declared from the
 database signature)."""
 HARNESSES = []
@@ -6,10 +6,10 @@ PROPERTY_INFO = {
     'C01': dict(level='translation_validation',
                 quick_cmd='python3 engine/c01check.py --tier quick --prop C01',
                 thorough_cmd='python3 engine/c01check.py --tier thorough --prop C01',
-                desc='generated -c wrappers of the corpus corpus/c01/*.h, each declared with the C signature the database records and checked against the direct C++ call on twin symbolic arguments',
+                desc='generated -c and -python (simple back end) wrappers of the corpus corpus/c01/*.h, each declared with the C signature the database records and checked against the direct C++ call on twin symbolic arguments',
                 claim='Translation validation by solver: interrogate is built from /repo and run on every corpus header x option set; every wrapper the DATABASE lists is declared from the database signature, called on symbolic arguments/object fields and compared by CBMC with the direct C++ call for that (function, parameter types) key: result, trace cell (overload/default variant), object post-state, result aliasing. A wrapper the corpus does not expect, a corpus function without wrapper, a generated file that does not compile are violations. Per corpus entry, not for all headers.',
                 explanation='translation validation by solver of generated code',
-                outside='headers outside the corpus; the -python and -python-native back ends; -fptrs tables; -refcount; classes inside namespaces (interrogate records their functions but emits no -c wrappers); allocation failure',
+                outside='headers outside the corpus; the -python-native back end (C02 covers generator-side kernels of it); for -python: the CPython C API is a model (models/cpython.c: tagged objects, PyArg_ParseTuple/Py*_From*/As* per their documentation; counterexamples are replayed against the real libpython3.11), reference counts and keyword arguments are not compared; -fptrs tables; -refcount; classes inside namespaces (interrogate records their functions but emits no -c wrappers); allocation failure',
                 assumptions=[]),
 }
 NOT_APPLICABLE = {}
